@@ -177,6 +177,17 @@ class Extraction:
                                                                               optimize=k.get("optimize", -1))
         self.events: list[tuple[str, object]] = []
 
+    def module(self, source: str) -> Obj | str:
+        """The Module object the visitor builds for `source` (or 'raises X')."""
+        it = self.it
+        ext = Obj(None, {"call": Native(lambda *_a, **_k: None)}, label="extensions")
+        it.steps = 0
+        try:
+            vis = it._construct(self.prog.cls(V), ["m", PurePosixPath("/s/m.py"), source, ext], {})
+            return it.call(self.prog.function(V + ".get_module"), vis)
+        except Raised as r:
+            return f"raises {r.exc}"
+
     def visit(self, source: str) -> tuple[dict[str, dict], list[tuple[str, object]]] | str:
         it = self.it
         self.events = []
